@@ -127,6 +127,9 @@ def oracleHistory (ops : List COp) (outs : List String) (desired : Nat) (ties : 
     match ops, outs with
     | [], [] => "ok"
     | op :: ops', out :: outs' =>
+      if out == "HANG" then "fail:C05:operation-does-not-terminate,fail:C15:operation-does-not-terminate"
+      else if out == "PANIC" then "fail:C05:operation-panicked,fail:C15:operation-panicked"
+      else
       match op with
       | .tick t => go ops' outs' { st with now := t }
       | .ins rr => go ops' outs' (st.insert rr)
